@@ -201,6 +201,8 @@ func spec_pkgInfoOf(p Package) *pkgInfo { pi, _ := p.(*pkgInfo); return pi }
 
 //@ func newPkg
 //@   props C13 C04 C06
+//@   assigns *
+//@   preserves pkg/types.Universe. pkg/sumfile.File. golang.org/x/tools/go/packages.
 //@   requires pkg != nil && pkg.Types != nil && pkg.Types.Scope() != nil && pkg.TypesInfo != nil && pkg.Fset != nil && u != nil
 //@   assume forall id *ast.Ident :: has(pkg.TypesInfo.Defs, id) && pkg.TypesInfo.Defs[id] != nil && pkg.TypesInfo.Defs[id].Parent() == pkg.Types.Scope() ==> pkg.Types.Scope().Lookup(pkg.TypesInfo.Defs[id].Name()) == pkg.TypesInfo.Defs[id]
 //@   assume forall n string :: pkg.Types.Scope().Lookup(n) != nil ==> pkg.Types.Scope().Lookup(n).Name() == n && pkg.Types.Scope().Lookup(n).Parent() == pkg.Types.Scope() && (exists id *ast.Ident :: has(pkg.TypesInfo.Defs, id) && pkg.TypesInfo.Defs[id] == pkg.Types.Scope().Lookup(n))
@@ -439,6 +441,72 @@ func Spec_bare(name string) string {
 	}
 	return name
 }
+
+// ---- types.Load: which packages are local / direct, and what gengo.sum records (C04, C07, C08) ----
+
+// spec_dirOf / spec_modOf: the directory and the module path ("" if none) of THE loaded package with import path q
+// (go/packages: one package per import path in a load) - uninterpreted, tied to the records by the assumption below.
+func spec_dirOf(q string) string { panic("uninterpreted") }
+func spec_modOf(q string) string { panic("uninterpreted") }
+
+// spec_hashDir(dir): what dirhash.HashDir(dir, "", Hash1) returns for the WHOLE directory.
+func spec_hashDir(dir string) string { panic("uninterpreted") }
+
+// spec_pkgFacts(p): go/packages facts about one package record.
+func spec_pkgFacts(p *packages.Package) bool {
+	return p != nil && p.Types != nil && p.Types.Scope() != nil && p.TypesInfo != nil && p.Fset != nil && spec_dirOf(p.PkgPath) == p.Dir &&
+		(p.Module != nil || spec_modOf(p.PkgPath) == "") && (p.Module == nil || (spec_modOf(p.PkgPath) == p.Module.Path && p.Module.Path != ""))
+}
+
+// spec_loadInv: the invariant of the registration phase of Load, over the universe under construction and the three
+// tables of Load: (a) every recorded sum is the hash of the whole package directory; (b) a package is listed local only
+// if its module is a root module, and flagged direct exactly if it is an entrypoint; (c) every registered package whose
+// module is a root module is listed.
+func spec_loadInv(u *Universe, local map[string]bool, direct map[string]bool, roots map[string]bool) bool {
+	return u != nil && u.pkgs != nil && u.sumFile != nil && u.sumFile.Data != nil && local != nil &&
+		spec_all(func(q string) bool { return !spec_has(u.sumFile.Data, q) || u.sumFile.Data[q] == spec_hashDir(spec_dirOf(q)) }) &&
+		spec_all(func(q string) bool {
+			return !spec_has(local, q) || (local[q] == direct[q] && spec_modOf(q) != "" && spec_has(roots, spec_modOf(q)))
+		}) &&
+		spec_all(func(q string) bool {
+			return !(spec_has(u.pkgs, q) && spec_modOf(q) != "" && spec_has(roots, spec_modOf(q))) || spec_has(local, q)
+		})
+}
+
+//@ func Load
+//@   props C04 C07 C08
+//@   requires forall i int :: 0 <= i && i < len(options) ==> options[i] != nil
+//@   assigns *
+//@   lit 1 modular
+//@   lit 1 requires p != nil && spec_loadInv(u, localPkgPaths, directPkgPaths, rootPkgPaths)
+//@   lit 1 assume forall x *packages.Package :: x != nil ==> spec_pkgFacts(x)
+//@   lit 1 assume forall x *packages.Package, k string :: x != nil && has(x.Imports, k) ==> x.Imports[k] != nil
+//@   note (lit 1 assume) go/packages: one record per import path in a load (PkgPath determines Dir and Module), imported packages are non-nil records
+//@   lit 1 ensures spec_loadInv(u, localPkgPaths, directPkgPaths, rootPkgPaths) && u == old(u) && u.sumFile == old(u.sumFile) && eq(directPkgPaths, old(directPkgPaths)) && eq(rootPkgPaths, old(rootPkgPaths))
+//@   lit 1 ensures has(u.pkgs, p.PkgPath) && (forall q string :: old(has(u.pkgs, q)) ==> has(u.pkgs, q))
+//@   loop 2 invariant p != nil && eq(u.pkgs, entry(u.pkgs))
+//@   loop 3 invariant p != nil && pkg != nil
+//@   loop 3 invariant spec_loadInv(u, localPkgPaths, directPkgPaths, rootPkgPaths)
+//@   loop 3 invariant u == old(u) && u.sumFile == old(u.sumFile) && eq(directPkgPaths, old(directPkgPaths)) && eq(rootPkgPaths, old(rootPkgPaths))
+//@   loop 3 invariant forall q string :: old(has(u.pkgs, q)) ==> has(u.pkgs, q)
+//@   loop 4 invariant p != nil && u == old(u) && u.sumFile == old(u.sumFile) && eq(directPkgPaths, old(directPkgPaths)) && eq(rootPkgPaths, old(rootPkgPaths)) && has(u.pkgs, p.PkgPath) && (forall q string :: old(has(u.pkgs, q)) ==> has(u.pkgs, q)) && eq(u.pkgs, entry(u.pkgs))
+//@   loop 4 invariant u.pkgs != nil && u.sumFile != nil && u.sumFile.Data != nil && localPkgPaths != nil
+//@   loop 4 invariant forall q string :: has(u.sumFile.Data, q) ==> u.sumFile.Data[q] == spec_hashDir(spec_dirOf(q))
+//@   loop 4 invariant forall q string :: has(localPkgPaths, q) ==> localPkgPaths[q] == directPkgPaths[q] && spec_modOf(q) != "" && has(rootPkgPaths, spec_modOf(q))
+//@   loop 4 invariant forall q string :: q != p.PkgPath && has(u.pkgs, q) && spec_modOf(q) != "" && has(rootPkgPaths, spec_modOf(q)) ==> has(localPkgPaths, q)
+//@   loop 4 invariant (exists a int :: 0 <= a && a < it4 && p.Module != nil && ks4[a] == p.Module.Path) ==> has(localPkgPaths, p.PkgPath)
+//@   ensures result0 != nil ==> result0.sumFile != nil && (forall q string :: has(result0.sumFile.Data, q) ==> result0.sumFile.Data[q] == spec_hashDir(spec_dirOf(q)))
+//@   ensures result0 != nil ==> forall q string :: has(result0.localPkgPaths, q) ==> spec_modOf(q) != ""
+//@   loop 5 assume forall i int :: 0 <= i && i < len(pkgs) ==> pkgs[i] != nil && pkgs[i].Module != nil && spec_pkgFacts(pkgs[i])
+//@   note (loop 5 assume) the packages matched by the patterns are non-nil records that belong to a module (a std package given as a pattern would make Load dereference a nil Module: not in the domain of the properties)
+//@   loop 1 invariant true
+//@   loop 6 invariant true
+//@   loop 5 invariant u != nil && u.pkgs != nil && u.sumFile != nil && u.sumFile.Data != nil && localPkgPaths != nil && directPkgPaths != nil && rootPkgPaths != nil
+//@   loop 5 invariant (forall q string :: !has(u.pkgs, q)) && (forall q string :: !has(localPkgPaths, q)) && (forall q string :: !has(u.sumFile.Data, q))
+//@   loop 5 invariant forall q string :: has(directPkgPaths, q) ==> directPkgPaths[q]
+//@   loop 7 assume forall i int :: 0 <= i && i < len(pkgs) ==> pkgs[i] != nil && pkgs[i].Module != nil && spec_pkgFacts(pkgs[i])
+//@   loop 7 invariant spec_loadInv(u, localPkgPaths, directPkgPaths, rootPkgPaths)
+//@   note Load records, for every local package, the hash of its WHOLE directory (nothing filtered out); a package is local iff its module is the module of some entrypoint (decided against the COMPLETE set of root modules: registration starts only after every entrypoint has been seen, which is what makes the answer independent of the order of the entrypoints), and it is flagged direct iff it is itself an entrypoint
 
 //@ func TypeRef.Walk
 //@   trusted
